@@ -8,7 +8,9 @@ over the regenerated table false.
 What is translated (by `ast`, plus introspection of the live `pyipmi.Ipmi` class only for
 the list of methods that exist and their signatures):
 
-* COMMANDS: a tuple of `Command('<name>', <handler>)`; handler = `lambda i, a: <expr>`, the name of
+* COMMANDS: any statically evaluable sequence of `Command('<name>', <handler>)` entries (tuple / list literal,
+  a module-level name bound once to one, tuple(...) / list(...), a + b, a comprehension
+  `Command(n, f) for (n, f) in <evaluable sequence of pairs>` without condition); handler = `lambda i, a: <expr>`, the name of
   a module-level `def f(ipmi, args)`, or a factory call `<f>('<literal>', ...)` of a module-level def whose
   body is `def h(ipmi, args): ...; return h` or `return lambda i, a: ...` (the factory's parameters are
   replaced by the literal arguments).  `getattr(<x>, '<literal>')` is read as `<x>.<literal>` everywhere.  For a handler the translator collects
@@ -18,7 +20,14 @@ the list of methods that exist and their signatures):
   use of the parameter is Untranslated.
 * api_methods: public callables of `pyipmi.Ipmi` with (min, max) positional arity
   (self excluded) and accepted keyword names.
-* main(): the getopt option string / long options; the if/elif chain over the options
+* expression helpers: a call of a module-level `def f(p...): return <expr>` whose parameters each occur once
+  in <expr> (e.g. `_int(a)` = `int(a, 0)`) is replaced by that expression before anything is read;
+  statement `setattr(x, '<literal>', v)` is read as `x.<literal> = v`.
+* main(): the getopt option string / long options; the loop over the options - an if/elif chain on the
+  option string, or a dispatch through a module-level dict literal {'<flag>': <setter>} applied as
+  `f = D.get(o) | D[o]; [assert ...]; f(<settings>, a)` / `D[o](<settings>, a)` where each setter (def, lambda
+  or factory product) is read like an if-branch; variables may be locals or attributes of one settings
+  object whose defaults are the `self.<attr> = <const>` of its class's __init__ -
   (flag -> what is done with the value: store as string / int(a, 0) / int(a) / the
   one-hop routing list / set True / usage+exit / version+exit) with each local variable
   named by its SINK (where main hands it to the library - followed into module-level helpers such
